@@ -42,6 +42,7 @@ fn drive<Q: ErrorQueue>(rng: &mut Rng, ctx: &mut Ctx, q: &mut Q, cap: Option<usi
         _ => 4 + rng.usize(if ctx.cfg.tiny { 20 } else { 40 }),
     };
     let mut uid: usize = 0;
+    let mut last_pushed: Option<Error> = None;
     let mut trace: Vec<String> = Vec::new();
     let mut saw_overflow = false;
     let mut saw_empty_pop = false;
@@ -84,6 +85,15 @@ fn drive<Q: ErrorQueue>(rng: &mut Rng, ctx: &mut Ctx, q: &mut Q, cap: Option<usi
                 if rng.chance(1, 3) || !matches!(item_of(&e).msg.first(), Some(b'm')) {
                     e = e.extended(pool[(uid * 7 + 3) % pool.len()]);
                 }
+                // most errors are unique so that order is unambiguous; now and then the very same error is reported
+                // again (a repeated fault), which a FIFO keeps as a second entry and which overflows like any other
+                if let Some(prev) = last_pushed {
+                    if rng.chance(1, 6) {
+                        e = prev;
+                        ctx.count("pushes.repeat-of-the-previous-error");
+                    }
+                }
+                last_pushed = Some(e);
                 if full {
                     saw_overflow = true;
                 }
